@@ -25,7 +25,7 @@ func main() { lib.Main(engine{}) }
 
 func (engine) ID() string { return "C19" }
 func (engine) CoqHeader() string {
-	return "From Eino Require Import Base.Util Model.StreamAcct Corr.C19.\nOpen Scope N_scope.\n"
+	return "From Eino Require Import Base.Util Model.StreamAcct Model.StreamRun Corr.C19.\nOpen Scope N_scope.\n"
 }
 func (engine) CoqCaseType() string { return "ccase" }
 
@@ -109,15 +109,19 @@ func topFrame(g goro) string {
 // ---------------------------------------------------------------- accounting log
 
 type hookSummary struct {
-	Copies        []int          `json:"copies"`         // sizes of copyItem copies made by resolveCompletedTasks, sorted
-	ResolveCloses int            `json:"resolve_closes"` // outermost closes issued by resolveCompletedTasks
-	UpdateCloses  int            `json:"update_closes"`  // ... by channelManager.updateValues
-	CallbackCopies []int         `json:"callback_copies,omitempty"`
-	OtherCopies   map[string]int `json:"other_copies,omitempty"`
-	OtherCloses   map[string]int `json:"other_closes,omitempty"`
-	Parents       int            `json:"copy_parents"`
-	Streams       int            `json:"streams"`
-	Undrained     []string       `json:"undrained,omitempty"` // copy parents / streams neither fully closed nor drained
+	Copies         []int          `json:"copies"`         // sizes of copyItem copies made by resolveCompletedTasks, sorted
+	ResolveCloses  int            `json:"resolve_closes"` // outermost closes issued by resolveCompletedTasks
+	UpdateCloses   int            `json:"update_closes"`  // ... by channelManager.updateValues
+	ChanCloses     int            `json:"chan_closes"`    // ... by dagChannel.reportValues (skipped channel)
+	SkipCloses     int            `json:"skip_closes"`    // ... by dagChannel.reportSkip (channel becomes skipped)
+	Merges         []int          `json:"merges"`         // sizes of the mergeValues calls of channel.get, sorted
+	OtherMerges    map[string]int `json:"other_merges,omitempty"`
+	CallbackCopies []int          `json:"callback_copies,omitempty"`
+	OtherCopies    map[string]int `json:"other_copies,omitempty"`
+	OtherCloses    map[string]int `json:"other_closes,omitempty"`
+	Parents        int            `json:"copy_parents"`
+	Streams        int            `json:"streams"`
+	Undrained      []string       `json:"undrained,omitempty"` // copy parents / streams neither fully closed nor drained
 }
 
 func shortOrigin(o string) string {
@@ -129,7 +133,7 @@ func shortOrigin(o string) string {
 }
 
 func summarise(ev []schema.VerifC19Event) hookSummary {
-	s := hookSummary{Copies: []int{}, OtherCopies: map[string]int{}, OtherCloses: map[string]int{}}
+	s := hookSummary{Copies: []int{}, Merges: []int{}, OtherCopies: map[string]int{}, OtherCloses: map[string]int{}, OtherMerges: map[string]int{}}
 	type parent struct {
 		n, closed int
 		eof       bool
@@ -154,8 +158,19 @@ func summarise(ev []schema.VerifC19Event) hookSummary {
 				s.ResolveCloses++
 			case strings.HasPrefix(e.Origin, "compose.streamReaderPacker.close<compose.(*channelManager).updateValues"):
 				s.UpdateCloses++
+			case strings.HasPrefix(e.Origin, "compose.streamReaderPacker.close<compose.(*dagChannel).reportValues"):
+				s.ChanCloses++
+			case strings.HasPrefix(e.Origin, "compose.streamReaderPacker.close<compose.(*dagChannel).reportSkip"):
+				s.SkipCloses++
 			default:
 				s.OtherCloses[shortOrigin(e.Origin)]++
+			}
+		case "merge":
+			if strings.HasPrefix(e.Origin, "compose.streamReaderPacker.merge<compose.mergeValues<compose.(*dagChannel).get") ||
+				strings.HasPrefix(e.Origin, "compose.streamReaderPacker.merge<compose.mergeValues<compose.(*pregelChannel).get") {
+				s.Merges = append(s.Merges, e.N)
+			} else {
+				s.OtherMerges[shortOrigin(e.Origin)]++
 			}
 		case "child_new":
 			parents[e.ID] = &parent{n: e.N}
@@ -181,6 +196,10 @@ func summarise(ev []schema.VerifC19Event) hookSummary {
 	}
 	sort.Ints(s.Copies)
 	sort.Ints(s.CallbackCopies)
+	sort.Ints(s.Merges)
+	if len(s.OtherMerges) == 0 {
+		s.OtherMerges = nil
+	}
 	s.Parents, s.Streams = len(parents), len(streams)
 	for id, p := range parents {
 		if !p.eof && p.closed < p.n {
@@ -210,10 +229,10 @@ type Obs struct {
 	Chunks    int         `json:"chunks"`
 	EOF       bool        `json:"eof"`
 	Execs     []string    `json:"execs"`
-	Branches  [][]string  `json:"branches,omitempty"` // [node, branch index, outcome...] per evaluation
-	Producers []string    `json:"producers"`          // name:state
-	Blocked   []string    `json:"blocked,omitempty"`  // producers still running after the settle period
-	Leaked    []string    `json:"leaked,omitempty"`   // goroutines with framework / producer frames after the settle period
+	Sched     [][]string  `json:"sched"`             // batches of completed tasks as taskManager.wait returned them
+	Producers []string    `json:"producers"`         // name:state
+	Blocked   []string    `json:"blocked,omitempty"` // producers still running after the settle period
+	Leaked    []string    `json:"leaked,omitempty"`  // goroutines with framework / producer frames after the settle period
 	Hook      hookSummary `json:"hook"`
 	SettleMs  int         `json:"-"`
 }
@@ -303,7 +322,7 @@ func (engine) Run(ci any) lib.Result {
 	sort.Strings(leaked)
 
 	obs := Obs{Class: out.class, Msg: out.msg, Chunks: out.chunks, EOF: out.eof, Blocked: blocked, Leaked: leaked, Hook: sum,
-		Execs: []string{}, Producers: []string{}}
+		Execs: []string{}, Producers: []string{}, Sched: e.sched}
 	e.mu.Lock()
 	for _, x := range e.execs {
 		obs.Execs = append(obs.Execs, nodeName(x))
@@ -324,6 +343,15 @@ func (engine) Run(ci any) lib.Result {
 	}
 	if out.class != "ok" {
 		// the run did not complete: outside the property (only completed runs are constrained)
+		return res
+	}
+	if why := unfinished(c, e); why != "" {
+		// END was reached while a node that had been triggered had not run, or a task was still in
+		// flight (eager mode): not every produced value has a consumer / not every node ran or was
+		// skipped — outside the property
+		obs.Class = "early_end"
+		obs.Msg = why
+		res.Tags = tagsOf(c, e, &obs)
 		return res
 	}
 	// ---- direct oracle
@@ -355,38 +383,148 @@ func (engine) Run(ci any) lib.Result {
 	return res
 }
 
-// coqCase renders the completed tasks with their branch outcomes and the hook observables.
+// unfinished tells whether the run returned while part of the graph was still to run. In
+// all-predecessor mode a node one of whose control predecessors reported "ready" (a control edge
+// of an executed node, or a branch of it that selected the node) cannot be skipped any more: it
+// must have run. In every mode each started task must have been collected by the run loop.
+func unfinished(c *Case, e *env) string {
+	e.mu.Lock()
+	defer e.mu.Unlock()
+	started := map[int]int{}
+	for _, x := range e.execs {
+		started[x]++
+	}
+	collected := map[int]int{}
+	for _, b := range e.sched {
+		for _, key := range b {
+			if i, ok := nodeIndex(key); ok {
+				collected[i]++
+			}
+		}
+	}
+	for x, n := range started {
+		if collected[x] != n {
+			return fmt.Sprintf("%s started %d time(s), collected %d time(s)", nodeName(x), n, collected[x])
+		}
+	}
+	if c.Mode == "pregel" {
+		return ""
+	}
+	_, controls := c.callsOf()
+	check := func(from int, brs []BranchSpec, k int) string {
+		// a control edge to a node that is also an end node of a branch of the same node does not
+		// count: if no branch selects it the skip report comes first and may skip the node for good
+		isEnd := map[int]bool{}
+		for _, b := range brs {
+			for _, t := range b.Ends {
+				isEnd[t] = true
+			}
+		}
+		var trig []int
+		for _, y := range controls[from] {
+			if !isEnd[y] {
+				trig = append(trig, y)
+			}
+		}
+		for bi := range brs {
+			if log := e.brLog[[2]int{from, bi}]; k < len(log) {
+				trig = append(trig, log[k]...)
+			}
+		}
+		for _, y := range trig {
+			if y != END && started[y] == 0 {
+				return fmt.Sprintf("%s was triggered by %s and did not run", nodeName(y), nodeName(from))
+			}
+		}
+		return ""
+	}
+	if w := check(START, c.StartBranches, 0); w != "" {
+		return w
+	}
+	for x := range started {
+		if w := check(x, c.Nodes[x].Branches, 0); w != "" {
+			return w
+		}
+	}
+	return ""
+}
+
+// coqCase renders the compiled graph (chanCall of START and of every node), the schedule (the
+// batches of completed tasks with the outcome of their branch conditions) and the hook observables.
 func coqCase(c *Case, e *env, sum *hookSummary) (string, bool) {
 	e.mu.Lock()
 	defer e.mu.Unlock()
-	seen := map[int]int{}
-	var tasks []string
-	task := func(node int, succ []int, brs []BranchSpec, k int) bool {
+	writeTo, controls := c.callsOf()
+	nodata := c.Mode == "workflow"
+	callOf := func(node int, brs []BranchSpec) string {
 		var bs []string
-		for bi, b := range brs {
+		for _, b := range brs {
+			bs = append(bs, lib.CoqApp("mkbd", lib.CoqBool(nodata), coqKeys(b.Ends)))
+		}
+		return lib.CoqPair(lib.CoqN(coqKey(node)), lib.CoqApp("mkc", coqKeys(writeTo[node]), coqKeys(controls[node]), lib.CoqList(bs)))
+	}
+	calls := []string{callOf(START, c.StartBranches)}
+	for i := range c.Nodes {
+		calls = append(calls, callOf(i, c.Nodes[i].Branches))
+	}
+	seen := map[int]int{}
+	entry := func(node int, brs []BranchSpec) (string, bool) {
+		k := seen[node]
+		seen[node]++
+		var outs []string
+		for bi := range brs {
 			log := e.brLog[[2]int{node, bi}]
 			if k >= len(log) {
-				return false
+				return "", false
 			}
-			bs = append(bs, lib.CoqApp("mkB", "false", coqKeys(b.Ends), coqKeys(log[k])))
+			outs = append(outs, coqKeys(log[k]))
 		}
-		tasks = append(tasks, lib.CoqApp("mkT", lib.CoqN(coqKey(node)), coqKeys(succ), lib.CoqList(bs)))
-		return true
+		return lib.CoqPair(lib.CoqN(coqKey(node)), lib.CoqList(outs)), true
 	}
-	if !task(START, c.StartSucc, c.StartBranches, 0) {
+	st, ok := entry(START, c.StartBranches)
+	if !ok {
 		return "", false
 	}
-	for _, x := range e.execs {
-		if !task(x, c.Nodes[x].Succ, c.Nodes[x].Branches, seen[x]) {
-			return "", false
+	sched := []string{lib.CoqList([]string{st})}
+	for _, b := range e.sched {
+		var items []string
+		for _, key := range b {
+			idx, ok := nodeIndex(key)
+			if !ok || idx < 0 || idx >= len(c.Nodes) {
+				return "", false
+			}
+			it, ok := entry(idx, c.Nodes[idx].Branches)
+			if !ok {
+				return "", false
+			}
+			items = append(items, it)
 		}
-		seen[x]++
+		sched = append(sched, lib.CoqList(items))
 	}
 	cps := make([]string, len(sum.Copies))
 	for i, n := range sum.Copies {
 		cps[i] = lib.CoqZ(int64(n))
 	}
-	return lib.CoqApp("mkC", lib.CoqList(tasks), lib.CoqList(cps), lib.CoqNat(sum.ResolveCloses), lib.CoqNat(sum.UpdateCloses)), true
+	mgs := make([]string, len(sum.Merges))
+	for i, n := range sum.Merges {
+		mgs[i] = lib.CoqNat(n)
+	}
+	fired := make([]uint64, 0, len(e.execs))
+	for _, x := range e.execs {
+		fired = append(fired, coqKey(x))
+	}
+	sort.Slice(fired, func(i, j int) bool { return fired[i] < fired[j] })
+	return lib.CoqApp("mkR", lib.CoqBool(c.Mode != "pregel"), lib.CoqBool(c19Eager(c)), lib.CoqList(calls), lib.CoqList(sched),
+		lib.CoqList(cps), lib.CoqNat(sum.ResolveCloses), lib.CoqNat(sum.UpdateCloses), lib.CoqNat(sum.ChanCloses), lib.CoqNat(sum.SkipCloses),
+		lib.CoqList(mgs), lib.CoqNList(fired)), true
+}
+
+func nodeIndex(key string) (int, bool) {
+	if len(key) < 2 || key[0] != 'n' {
+		return 0, false
+	}
+	i, err := strconv.Atoi(key[1:])
+	return i, err == nil
 }
 
 func tagsOf(c *Case, e *env, o *Obs) []string {
